@@ -34,6 +34,10 @@ pub enum Ty {
     Tuple(Vec<Ty>),
     /// `Result<A, B>`
     Res(Box<Ty>, Box<Ty>),
+    /// an opaque future with this output (its `poll` answers come from the oracle `futs`)
+    Fut(Box<Ty>),
+    /// `Poll<T>`
+    Poll(Box<Ty>),
     Fun(Vec<Ty>, Box<Ty>),
     Counter,
     /// a user callback without result held as a value (`F: FnOnce()` inside an `Option` cell)
@@ -77,6 +81,8 @@ impl Ty {
             Ty::List(t) => format!("(List {})", t.lean()),
             Ty::Tuple(ts) => format!("({})", ts.iter().map(|t| t.lean()).collect::<Vec<_>>().join(" × ")),
             Ty::Res(a, b) => format!("(Except {} {})", b.lean(), a.lean()),
+            Ty::Fut(_) => "Rs.Fut".into(),
+            Ty::Poll(t) => format!("(Rs.Poll {})", t.lean()),
             Ty::Fun(a, r) => {
                 let mut s = String::new();
                 for t in a {
@@ -209,6 +215,9 @@ impl Generics {
                             "Scheduler" => {
                                 g.map.insert(n.clone(), Ty::Sched);
                             }
+                            "Future" => {
+                                g.map.insert(n.clone(), Ty::Fut(Box::new(Ty::Val)));
+                            }
                             "Extend" | "IntoIterator" | "Iterator" => {
                                 g.map.insert(n.clone(), Ty::List(Box::new(Ty::Val)));
                             }
@@ -233,6 +242,14 @@ impl Generics {
                 }
             }
             Type::Array(a) => self.ty(&a.elem),
+            Type::FnPtr(fp) => {
+                let ins = fp.inputs.iter().map(|a| self.ty(&a.ty)).collect::<Res<Vec<_>>>()?;
+                let out = match &fp.output {
+                    ReturnType::Default => Ty::Unit,
+                    ReturnType::Type(_, t) => self.ty(t)?,
+                };
+                Ok(Ty::Fun(ins, Box::new(out)))
+            }
             Type::ImplTrait(it) => {
                 for b in &it.bounds {
                     if let TypeParamBound::Trait(tb) = b {
@@ -252,6 +269,9 @@ impl Generics {
                         if matches!(last_seg(&tb.path).as_str(), "FnOnce" | "FnMut" | "Fn") {
                             return Ok(Ty::Lazy);
                         }
+                        if last_seg(&tb.path) == "Any" {
+                            return Ok(Ty::Unit); // the payload of a caught panic
+                        }
                     }
                 }
                 bail(format!("type `{}` not understood", show(t)))
@@ -269,7 +289,17 @@ impl Generics {
                     "Vec" | "VecDeque" | "HashSet" => Ok(Ty::List(Box::new(self.ty(args[0])?))),
                     "HashMap" if args.len() == 2 => Ok(Ty::List(Box::new(Ty::Tuple(vec![self.ty(args[0])?, self.ty(args[1])?])))),
                     "Infallible" => Ok(Ty::Err),
-                    "BoxSubscription" | "BoxSubscriptionThreads" | "TaskHandle" => Ok(Ty::Sub),
+                    "BoxFuture" | "LocalBoxFuture" => Ok(Ty::Fut(Box::new(args.last().map(|a| self.ty(a)).transpose()?.unwrap_or(Ty::Unit)))),
+                    // `CatchUnwind<AssertUnwindSafe<Fut>>`: the output is the future's result or the caught panic
+                    "CatchUnwind" if args.len() == 1 => match self.ty(args[0])? {
+                        Ty::Fut(o) => Ok(Ty::Fut(Box::new(Ty::Res(o, Box::new(Ty::Unit))))),
+                        _ => bail("CatchUnwind of something that is not a future"),
+                    },
+                    "AssertUnwindSafe" | "Pin" if args.len() == 1 => self.ty(args[0]),
+                    "Poll" if args.len() == 1 => Ok(Ty::Poll(Box::new(self.ty(args[0])?))),
+                    "Output" if tp.path.segments.len() == 2 => Ok(Ty::Val),
+                    "BoxSubscription" | "BoxSubscriptionThreads" | "TaskHandle" | "SubscribeReturn" => Ok(Ty::Sub),
+                    "NormalReturn" => Ok(Ty::Unit),
                     _ if CELLS.contains(&name.as_str()) && args.len() == 1 => self.ty(args[0]),
                     _ => {
                         if tp.path.segments.len() == 1 && args.is_empty() {
@@ -411,6 +441,8 @@ pub struct Fx<'a> {
     dyn_down: bool,
     /// inside a `while` with `break` / loop-carried locals: the state tuple a `break` hands back
     loop_state: Option<String>,
+    /// the function hands back a value next to the state (`poll`): `return v` is allowed; the Lean type of `v`
+    ret_mode: Option<String>,
 }
 
 impl<'a> Fx<'a> {
@@ -440,6 +472,7 @@ impl<'a> Fx<'a> {
             fname: self.fname.clone(),
             dyn_down: self.dyn_down,
             loop_state: self.loop_state.clone(),
+            ret_mode: self.ret_mode.clone(),
         }
     }
 
@@ -466,6 +499,11 @@ impl<'a> Fx<'a> {
             Expr::Unary(u) if matches!(u.op, UnOp::Deref(_)) => self.is_root(&u.expr),
             Expr::Field(f) => {
                 self.newtype && Self::is_self(&f.base) && matches!(&f.member, Member::Unnamed(i) if i.index == 0)
+            }
+            Expr::MethodCall(m) if m.method == "project" && m.args.is_empty() => {
+                // `self.project()` / `self.as_mut().project()` of a pinned future: the fields of the state
+                Self::is_self(&m.receiver)
+                    || matches!(&*m.receiver, Expr::MethodCall(mm) if mm.method == "as_mut" && mm.args.is_empty() && Self::is_self(&mm.receiver))
             }
             Expr::MethodCall(m) => {
                 let n = m.method.to_string();
@@ -633,6 +671,10 @@ impl<'a> Fx<'a> {
                         _ => None,
                     },
                     ("len", 0) => Some(Ty::Nat),
+                    ("poll", 1) | ("poll_unpin", 1) => match rt {
+                        Ty::Fut(o) => Some(Ty::Poll(o)),
+                        _ => None,
+                    },
                     ("actual_subscribe", 1) if rt == Ty::Inner => Some(Ty::Sub),
                     ("schedule", 2) if rt == Ty::Sched => Some(Ty::Sub),
                     ("drain", 0) | ("drain", 1) => Some(rt),
@@ -731,6 +773,12 @@ impl<'a> Fx<'a> {
                         _ => None,
                     };
                     self.bind(&ts.elems[0], ti);
+                } else if n == "Ready" && ts.elems.len() == 1 {
+                    let ti = match t {
+                        Some(Ty::Poll(t)) => Some(*t),
+                        _ => None,
+                    };
+                    self.bind(&ts.elems[0], ti);
                 } else if (n == "Ok" || n == "Err") && ts.elems.len() == 1 {
                     let ti = match t {
                         Some(Ty::Res(a, b)) => Some(if n == "Ok" { *a } else { *b }),
@@ -777,6 +825,7 @@ impl<'a> Fx<'a> {
                 }
                 match (n.as_str(), parts.len()) {
                     ("Some", 1) => Ok(format!("(some {})", parts[0])),
+                    ("Ready", 1) => Ok(format!("(Rs.Poll.ready {})", parts[0])),
                     ("Ok", 1) => Ok(format!("(Except.ok {})", parts[0])),
                     ("Err", 1) => Ok(format!("(Except.error {})", parts[0])),
                     _ => bail(format!("pattern `{}`", show(p))),
@@ -784,6 +833,7 @@ impl<'a> Fx<'a> {
             }
             Pat::Path(pp) => match last_seg(&pp.path).as_str() {
                 "None" => Ok("none".into()),
+                "Pending" => Ok("Rs.Poll.pending".into()),
                 _ => bail(format!("pattern `{}`", show(p))),
             },
             Pat::Lit(l) => match &l.lit {
@@ -1233,11 +1283,46 @@ impl<'a> Fx<'a> {
                 }
                 match self.loop_state.clone() {
                     Some(st) => {
-                        self.emit(format!("return ({}, true)", st));
+                        self.emit(format!("return ({}, true)", st.replace("RET", "none")));
                         Ok(())
                     }
                     None => bail("break outside a translated loop"),
                 }
+            }
+            Expr::Return(r) if r.expr.is_some() && self.ret_mode.is_some() => {
+                let v = self.expr(r.expr.as_ref().unwrap())?;
+                match self.loop_state.clone() {
+                    Some(st) => self.emit(format!("return ({}, true)", st.replace("RET", &format!("(some {})", v)))),
+                    None => self.emit(format!("return (self_, out, {})", v)),
+                }
+                Ok(())
+            }
+            Expr::Loop(l) if self.ret_mode.is_some() => {
+                if l.label.is_some() {
+                    return bail("labelled loop");
+                }
+                let rt = self.ret_mode.clone().unwrap();
+                let sn = self.state_ty();
+                let tty = format!("({} × Rs.Out × Nat × Option {})", sn, rt);
+                let mut body = self.sub();
+                body.ind = 2;
+                body.loop_state = Some("(self_, out, pc, RET)".into());
+                body.block_stmts(&l.body)?;
+                self.emit(format!("let r ← Rs.loopFuel fuel (fun (_ : {}) => true) (fun (p : {}) => do", tty, tty));
+                self.emit("    let mut self_ := p.1");
+                self.emit("    let mut out := p.2.1");
+                self.emit("    let mut pc := p.2.2.1");
+                for l in body.lines {
+                    self.emit(l);
+                }
+                self.emit("    return ((self_, out, pc, none), false)) (self_, out, pc, none)");
+                self.emit("self_ := r.1");
+                self.emit("out := r.2.1");
+                self.emit("pc := r.2.2.1");
+                self.emit("match r.2.2.2 with");
+                self.emit("| some v => return (self_, out, v)");
+                self.emit("| none => pure ()");
+                Ok(())
             }
             Expr::Return(r) => {
                 if r.expr.is_some() {
@@ -1359,6 +1444,8 @@ impl<'a> Fx<'a> {
                     }
                     let pl = self.place(e)?;
                     Ok(self.read_place(&pl))
+                } else if n == "Pending" {
+                    Ok("Rs.Poll.pending".into())
                 } else {
                     bail(format!("path `{}`", show(p)))
                 }
@@ -1452,6 +1539,36 @@ impl<'a> Fx<'a> {
                     None => return bail("value `if` without else"),
                 };
                 Ok(format!("(if {} then {} else {})", c, a, b))
+            }
+            Expr::Match(m)
+                if self.ret_mode.is_some()
+                    && m.arms.len() == 2
+                    && m.arms.iter().filter(|a| matches!(&*a.body, Expr::Return(_)) || matches!(&*a.body, Expr::Block(b) if matches!(b.block.stmts.as_slice(), [Stmt::Expr(Expr::Return(_), _)]))).count() == 1 =>
+            {
+                // `match fut.poll(cx) { Ready(t) => t, Pending => return Pending }` (the `ready!` macro): the other arm's
+                // pattern is bound by a `let … | return …`
+                let t = self.tyx(&m.expr);
+                let scrut = self.expr(&m.expr)?;
+                let is_ret = |a: &syn::Arm| matches!(&*a.body, Expr::Return(_)) || matches!(&*a.body, Expr::Block(_));
+                let (val_arm, ret_arm) = if is_ret(&m.arms[0]) && !matches!(&*m.arms[1].body, Expr::Return(_)) { (&m.arms[1], &m.arms[0]) } else { (&m.arms[0], &m.arms[1]) };
+                let rexpr = match &*ret_arm.body {
+                    Expr::Return(r) => r.expr.as_ref(),
+                    Expr::Block(b) => match b.block.stmts.as_slice() {
+                        [Stmt::Expr(Expr::Return(r), _)] => r.expr.as_ref(),
+                        _ => None,
+                    },
+                    _ => None,
+                }
+                .ok_or("return without a value")?;
+                let rv = self.expr(rexpr)?;
+                let p = self.pat(&val_arm.pat)?;
+                let alt = match self.loop_state.clone() {
+                    Some(st) => format!("return ({}, true)", st.replace("RET", &format!("(some {})", rv))),
+                    None => format!("return (self_, out, {})", rv),
+                };
+                self.emit(format!("let {} := {} | {}", p, scrut, alt));
+                self.bind(&val_arm.pat, t);
+                self.expr(&val_arm.body)
             }
             Expr::Match(m) => {
                 let t = self.tyx(&m.expr);
@@ -1572,8 +1689,12 @@ impl<'a> Fx<'a> {
 
     fn call(&mut self, c: &syn::ExprCall) -> Res<String> {
         let mut f = &*c.func;
-        while let Expr::Paren(p) = f {
-            f = &p.expr;
+        loop {
+            match f {
+                Expr::Paren(p) => f = &p.expr,
+                Expr::Unary(u) if matches!(u.op, UnOp::Deref(_)) => f = &u.expr,
+                _ => break,
+            }
         }
         // a closure stored in a field: (self.f)(args)
         if let Expr::Field(_) = f {
@@ -1596,6 +1717,35 @@ impl<'a> Fx<'a> {
             };
         }
         if let Expr::Path(p) = f {
+            match (last_seg(&p.path).as_str(), c.args.len()) {
+                ("Ready", 1) => return Ok(format!("(Rs.Poll.ready {})", self.expr(&c.args[0])?)),
+                ("new", 1) if p.path.segments.len() == 2 && matches!(p.path.segments[0].ident.to_string().as_str(), "NormalReturn" | "SubscribeReturn") => {
+                    return self.expr(&c.args[0]);
+                }
+                ("new_timer", 1) => {
+                    // a timer future is created with this duration
+                    let d = self.expr(&c.args[0])?;
+                    self.out(format!("Rs.emitTimer {}", d))?;
+                    return Ok(format!("(Rs.Fut.timer {})", d));
+                }
+                ("swap", 2) => {
+                    let a = self.place(&c.args[0])?;
+                    let b = self.place(&c.args[1])?;
+                    let t = self.fresh("t");
+                    let av = self.read_place(&a);
+                    self.emit(format!("let {} := {}", t, av));
+                    let bv = self.read_place(&b);
+                    self.write_place(&a, &bv)?;
+                    self.write_place(&b, &t)?;
+                    return Ok("()".into());
+                }
+                _ => {}
+            }
+            // `panic::resume_unwind(e)`: the caught panic of the task is re-raised
+            if last_seg(&p.path) == "resume_unwind" {
+                self.emit("Rs.panic");
+                return Ok("()".into());
+            }
             // `<BoxSubscription<'a>>::new(unsub)`: boxing is transparent
             if let Some(q) = &p.qself {
                 if let Type::Path(tp) = &*q.ty {
@@ -1811,6 +1961,15 @@ impl<'a> Fx<'a> {
                 return self.struct_call(si, &name, &m.receiver, &args);
             }
             return bail("the cell subscription (RcSubscription) is not available in this module");
+        }
+        // an opaque future is polled: the oracle answers
+        if let Some(Ty::Fut(_)) = &rt {
+            if matches!(name.as_str(), "poll" | "poll_unpin") && nargs == 1 {
+                let t = self.fresh("t");
+                self.emit(format!("let {} := futs pc", t));
+                self.emit("pc := pc + 1");
+                return Ok(t);
+            }
         }
         // the scheduler
         if rt == Some(Ty::Sched) && name == "schedule" && nargs == 2 {
@@ -2426,6 +2585,7 @@ pub fn parse_spec(spec: &str) -> Ty {
         "obs" => Ty::Obs,
         "callback" => Ty::Callback,
         "sub" => Ty::Sub,
+        "unit" => Ty::Unit,
         "grp" => Ty::Grp,
         "inner" => Ty::Inner,
         "lazy" => Ty::Lazy,
@@ -2547,6 +2707,7 @@ pub fn translate_task_fn(items: &[Item], fname: &str, obs: &str, fields: &[&str]
         fname: format!("task_{}", fname),
         dyn_down: false,
         loop_state: None,
+        ret_mode: None,
     };
     let n = f.block.stmts.len();
     for (k, st) in f.block.stmts.iter().enumerate() {
@@ -2605,6 +2766,7 @@ pub fn translate_tick_fn(items: &[Item], fname: &str, obs: &str, ctx: &Ctx) -> R
         fname: format!("tick_{}", fname),
         dyn_down: false,
         loop_state: None,
+        ret_mode: None,
     };
     fn tail(fx: &mut Fx, e: &Expr) -> Res<()> {
         match e {
@@ -2656,6 +2818,125 @@ pub fn translate_tick_fn(items: &[Item], fname: &str, obs: &str, ctx: &Ctx) -> R
     Ok(d)
 }
 
+/// `impl Future for X { fn poll(self: Pin<&mut Self>, cx) -> Poll<Output> }` of the scheduler's own futures
+/// (`Remote`, `OnceTask`, `RepeatTask`, `FutureTask`): a function of the state and of the ORACLE `futs` (what the
+/// k-th poll of the wrapped future / timer answers), giving the new state, the events and the `Poll` it returns.
+pub fn translate_poll_fn(items: &[Item], name: &str, ctx: &Ctx, hints: &HashMap<String, Ty>) -> Res<String> {
+    let si = ctx.structs.get(name).ok_or(format!("struct {} not translated", name))?;
+    let im = items
+        .iter()
+        .find_map(|i| match i {
+            Item::Impl(im) if matches!(&im.trait_, Some(tr) if last_seg(&tr.0) == "Future") && matches!(impl_target(&im.self_ty), Some((n, _, _)) if n == name) => Some(im),
+            _ => None,
+        })
+        .ok_or(format!("impl Future for {} not found", name))?;
+    let f = im
+        .items
+        .iter()
+        .find_map(|it| match it {
+            ImplItem::Fn(f) if f.sig.ident == "poll" => Some(f),
+            _ => None,
+        })
+        .ok_or("fn poll not found")?;
+    let g = generics_for(&im.generics, &[], ctx, hints)?;
+    let out_ty = im
+        .items
+        .iter()
+        .find_map(|it| match it {
+            ImplItem::Type(t) if t.ident == "Output" => Some(g.ty(&t.ty)),
+            _ => None,
+        })
+        .ok_or("associated type Output not found")??;
+    let fut_out = si
+        .fields
+        .iter()
+        .find_map(|(_, t)| match t {
+            Ty::Fut(o) => Some((**o).clone()),
+            _ => None,
+        })
+        .unwrap_or(Ty::Unit);
+    let rt = format!("(Rs.Poll {})", out_ty.lean());
+    let mut fx = Fx {
+        strukt: si,
+        ctx,
+        lines: vec![],
+        ind: 1,
+        tmp: 0,
+        locals: HashMap::new(),
+        aliases: HashMap::new(),
+        effectful: true,
+        newtype: false,
+        payload_of: HashMap::new(),
+        extra: vec![],
+        fname: "poll".into(),
+        dyn_down: false,
+        loop_state: None,
+        ret_mode: Some(rt.clone()),
+    };
+    // the tail expression is the value handed back
+    fn tail(fx: &mut Fx, e: &Expr) -> Res<()> {
+        match e {
+            Expr::Match(m) => {
+                let t = fx.tyx(&m.expr);
+                let scrut = fx.expr(&m.expr)?;
+                fx.emit(format!("match {} with", scrut));
+                for arm in &m.arms {
+                    let p = fx.pat(&arm.pat)?;
+                    let saved = fx.locals.clone();
+                    fx.bind(&arm.pat, t.clone());
+                    fx.emit(format!("| {} =>", p));
+                    fx.ind += 2;
+                    tail(fx, &arm.body)?;
+                    fx.ind -= 2;
+                    fx.locals = saved;
+                }
+                Ok(())
+            }
+            Expr::Block(b) => tail_block(fx, &b.block),
+            Expr::Loop(_) => fx.expr_stmt(e),
+            _ => {
+                let v = fx.expr(e)?;
+                fx.emit(format!("ret := {}", v));
+                Ok(())
+            }
+        }
+    }
+    fn tail_block(fx: &mut Fx, b: &Block) -> Res<()> {
+        let n = b.stmts.len();
+        for (k, st) in b.stmts.iter().enumerate() {
+            match st {
+                Stmt::Expr(e, None) if k + 1 == n => return tail(fx, e),
+                _ => fx.stmt(st)?,
+            }
+        }
+        Ok(())
+    }
+    tail_block(&mut fx, &f.block).map_err(|e| format!("{}::poll: {}", name, e))?;
+    let has_loop = show_full(&f.block).contains("loop");
+    let mut d = String::new();
+    for x in &fx.extra {
+        d += x;
+    }
+    writeln!(
+        d,
+        "def {}.poll (self0 : {}) (futs : Nat → Rs.Poll {}){} : Option ({} × Rs.Out × {}) := do",
+        name,
+        name,
+        fut_out.lean(),
+        if has_loop { " (fuel : Nat)" } else { "" },
+        name,
+        rt
+    )
+    .unwrap();
+    writeln!(d, "  let mut self_ := self0\n  let mut out : Rs.Out := []\n  let mut pc : Nat := 0\n  let mut ret : {} := Rs.Poll.pending", rt).unwrap();
+    for l in fx.lines {
+        d += &l;
+        d.push('\n');
+    }
+    d += "  return (self_, out, ret)\n\n";
+    Ok(d)
+}
+
 /// A struct without translated methods (the content of a shared cell, e.g. `ObserverData` of merge_all).
 pub fn translate_plain_struct(items: &[Item], name: &str, ctx: &mut Ctx, hints: &HashMap<String, Ty>) -> Res<String> {
     let st = find_struct(items, name).ok_or(format!("struct {} not found", name))?;
@@ -2691,11 +2972,25 @@ pub fn translate_observer(items: &[Item], name: &str, ctx: &mut Ctx, hints: &Has
         Some(x) => (Some(x.to_string()), format!("Slot{}", x)),
         None => (None, name.to_string()),
     };
+    // `TaskHandle#NormalReturn`: only the impls whose self type mentions `NormalReturn` (one struct, several impls
+    // of the same trait for different type arguments); the Lean name is `TaskHandleNormalReturn`
+    let (name, impl_filter): (&str, Option<String>) = match name.split_once('#') {
+        Some((a, b)) => (a, Some(b.to_string())),
+        None => (name, None),
+    };
+    let lean_name = match &impl_filter {
+        Some(f) => format!("{}{}", lean_name.split('#').next().unwrap(), f),
+        None => lean_name,
+    };
     let src_name = if slot_over.is_some() { "RcObserver" } else { name };
+    let struct_src_name = name.to_string();
     let name: &str = &lean_name;
     let mut hints_owned: HashMap<String, Ty> = hints.clone();
     let pseudo = src_name == "RcObserver";
-    let impls = impls_of(items, src_name);
+    let mut impls = impls_of(items, src_name);
+    if let Some(f) = &impl_filter {
+        impls.retain(|im| show_full(&im.self_ty).contains(f.as_str()) || im.trait_.is_none());
+    }
     if let (Some(x), Some(im)) = (&slot_over, impls.first()) {
         // the observer parameter of the macro's impl (`impl<Item, Err, O> Observer<Item, Err> for $rc<Option<O>>`)
         if let Some((_, a, _)) = impl_target(&im.self_ty) {
@@ -2739,7 +3034,7 @@ pub fn translate_observer(items: &[Item], name: &str, ctx: &mut Ctx, hints: &Has
         // an optional subscription (the handler cells of debounce / throttle / buffer_with_time)
         root_ty = Some(Ty::Opt(Box::new(Ty::Sub)));
     } else {
-        let st = find_struct(items, name).ok_or(format!("struct {} not found", name))?;
+        let st = find_struct(items, &struct_src_name).ok_or(format!("struct {} not found", struct_src_name))?;
         // the struct's own parameter names ↦ the impl's arguments
         let (_, iargs, _) = impl_target(&obs_impl.self_ty).unwrap();
         let sparams: Vec<String> = st
@@ -2934,6 +3229,7 @@ pub fn translate_observer(items: &[Item], name: &str, ctx: &mut Ctx, hints: &Has
             fname: fname.clone(),
             dyn_down: mi.dyn_down,
             loop_state: None,
+            ret_mode: None,
         };
         if *effectful {
             let mut ok = true;
@@ -2962,7 +3258,7 @@ pub fn translate_observer(items: &[Item], name: &str, ctx: &mut Ctx, hints: &Has
                 Ok(v) => writeln!(s, "def {}.{} (self_ : {}){}{} : {} :=\n  {}\n", name, fname, state_ty, ps, down, mi.ret.lean(), v).unwrap(),
                 Err(e1) => {
                     // a query that can panic (`unwrap()`): the same in the Option monad
-                    let mut fx2 = Fx { strukt: &info, ctx, lines: vec![], ind: 1, tmp: 0, locals: params.iter().cloned().collect(), aliases: HashMap::new(), effectful: false, newtype, payload_of: HashMap::new(), extra: vec![], fname: fname.clone(), dyn_down: false, loop_state: None };
+                    let mut fx2 = Fx { strukt: &info, ctx, lines: vec![], ind: 1, tmp: 0, locals: params.iter().cloned().collect(), aliases: HashMap::new(), effectful: false, newtype, payload_of: HashMap::new(), extra: vec![], fname: fname.clone(), dyn_down: false, loop_state: None, ret_mode: None };
                     let n = u.f.block.stmts.len();
                     let mut res: Res<String> = bail("empty body");
                     for (k, st) in u.f.block.stmts.iter().enumerate() {
@@ -3777,6 +4073,18 @@ fn main() {
                         failed += 1;
                         eprintln!("{}: task {}: {}", ent.file, tf, e);
                         writeln!(lean, "-- TRANSLATION FAILED for task fn {}: {}\n", tf, e.replace('\n', " ")).unwrap();
+                    }
+                }
+            }
+            for pn in ent.polls {
+                let hints: HashMap<String, Ty> =
+                    ent.hints.iter().filter(|h| h.0 == *pn).map(|h| (h.1.to_string(), parse_spec(h.2))).collect();
+                match translate_poll_fn(&items, pn, &ctx, &hints) {
+                    Ok(s) => lean += &s,
+                    Err(e) => {
+                        failed += 1;
+                        eprintln!("{}: poll of {}: {}", ent.file, pn, e);
+                        writeln!(lean, "-- TRANSLATION FAILED for the poll of {}: {}\n", pn, e.replace('\n', " ")).unwrap();
                     }
                 }
             }
